@@ -64,12 +64,19 @@ type Config struct {
 	stateFunc func(ConnState)
 }
 
+// DefaultDialer returns the default dialer for a client.
+//
+// The dialer gets its own copy of uacp.DefaultClientACK since the
+// MaxMessageSize, MaxChunkCount, ReceiveBufferSize and SendBufferSize
+// options modify it. Sharing the package-level value would change
+// the defaults of all other clients.
 func DefaultDialer() *uacp.Dialer {
+	ack := *uacp.DefaultClientACK
 	return &uacp.Dialer{
 		Dialer: &net.Dialer{
 			Timeout: DefaultDialTimeout,
 		},
-		ClientACK: uacp.DefaultClientACK,
+		ClientACK: &ack,
 	}
 }
 
